@@ -248,6 +248,18 @@ def allowed_ptms(residue, res_ptms, known_ptms):
             yield ptm, ptm_graph_matcher
 
 
+def _first_present(molecule, node_idxs):
+    """
+    Returns the first of `node_idxs` that is (still) a node of `molecule`. Atoms
+    of unidentified modifications are removed along the way, the first atom of
+    a residue may be one of them.
+    """
+    for node_idx in node_idxs:
+        if node_idx in molecule:
+            return node_idx
+    raise KeyError(node_idxs)
+
+
 def fix_ptm(molecule):
     '''
     Canonizes all PTM atoms in molecule, and labels the relevant residues with
@@ -315,7 +327,7 @@ def fix_ptm(molecule):
         except KeyError:
             LOGGER.warning('Could not identify the modifications for'
                            ' residues {}, involving atoms {}',
-                           ['{resname}{resid}'.format(**molecule.nodes[resid_to_idxs[resid][0]])
+                           ['{resname}{resid}'.format(**molecule.nodes[_first_present(molecule, resid_to_idxs[resid])])
                             for resid in sorted(set(resids))],
                            ['{atomid}-{atomname}'.format(**molecule.nodes[idx])
                             for idxs in res_ptms for idx in idxs[0]],
@@ -330,7 +342,7 @@ def fix_ptm(molecule):
         # residue(s); and a single PTM can span multiple residues.
         LOGGER.info("Identified the modifications {} on residues {}",
                     [out[0].graph['name'] for out in identified],
-                    ['{resname}{resid}'.format(**molecule.nodes[resid_to_idxs[resid][0]])
+                    ['{resname}{resid}'.format(**molecule.nodes[_first_present(molecule, resid_to_idxs[resid])])
                      for resid in resids])
         for ptm, match in identified:
             ptm.match = match
